@@ -422,6 +422,15 @@ fn cases(tier: Tier) -> Vec<Case> {
         c.exec.select_choice = false;
         c
     }));
+    // ... and attached to a stream that yields one item and then *ends* (every seventh case;
+    // thorough: every third): one more way for the actor to end, at any moment of the program
+    let step = if tier == Tier::Thorough { 3 } else { 7 };
+    let sc = crate::progscene::with_stream_variant_closing(vec![71], || plain_cases(tier));
+    v.extend(sc.into_iter().enumerate().filter(|(i, c)| i % step == 4 % step && !c.desc.contains("TimeoutFail") && !c.desc.contains("Restart")).map(|(_, mut c)| {
+        c.desc = c.desc.replacen("[stream loop]", "[stream loop, the stream ends after one item]", 1);
+        c.bound = c.bound.or(Some(if tier == Tier::Thorough { 5 } else { 3 }));
+        c
+    }));
     // ... and (every fourth case; thorough: every second) once more under a configuration that must
     // not matter: a handler timeout nothing comes near, and the recreate strategy
     let nv = crate::progscene::Variant { generous_timeout: true, recreate: true, builder_order: 0 };
